@@ -483,15 +483,29 @@ func isUnsafePtr(t types.Type) bool {
 }
 
 // unfoldFunc: the function hseq.New calls with (type, seq, 0).
-func unfoldFunc(c *core.Ctx) (*ssa.Function, *ssa.Call) {
+// unfoldInfo describes the unfolding function - the function of package hseq that hseq.New calls and that takes the
+// type to unfold (a reflect.Type) and the running offset (a uintptr). The listing is either threaded through it as a
+// slice parameter and result (seqP >= 0) or kept in a field of a state object it is a method of (recvP, cellField).
+type unfoldInfo struct {
+	fn                      *ssa.Function
+	rootCall                *ssa.Call
+	catP, offP, seqP, recvP int
+	cellField               string
+}
+
+func unfoldInfoOf(c *core.Ctx) *unfoldInfo {
 	fn := c.W.Func("hseq", "New")
 	if fn == nil {
-		return nil, nil
+		return nil
+	}
+	isSeqOfType := func(t types.Type) bool {
+		sl, ok := t.Underlying().(*types.Slice)
+		return ok && isHseqType(sl.Elem())
 	}
 	for _, b := range fn.Blocks {
 		for _, in := range b.Instrs {
 			call, ok := in.(*ssa.Call)
-			if !ok || len(call.Call.Args) != 3 {
+			if !ok {
 				continue
 			}
 			callee := call.Call.StaticCallee()
@@ -501,10 +515,47 @@ func unfoldFunc(c *core.Ctx) (*ssa.Function, *ssa.Call) {
 			if callee.Origin() != nil {
 				callee = callee.Origin()
 			}
-			if callee.Pkg == fn.Pkg {
-				return callee, call
+			if callee.Pkg != fn.Pkg || len(callee.Params) != len(call.Call.Args) {
+				continue
+			}
+			ui := &unfoldInfo{fn: callee, rootCall: call, catP: -1, offP: -1, seqP: -1, recvP: -1}
+			for i, p := range callee.Params {
+				t := p.Type()
+				switch {
+				case types.TypeString(t, nil) == "reflect.Type":
+					ui.catP = i
+				case isBasicKind(t, types.Uintptr):
+					ui.offP = i
+				case isSeqOfType(t):
+					ui.seqP = i
+				default:
+					if pt, isP := t.Underlying().(*types.Pointer); isP {
+						if st, isS := pt.Elem().Underlying().(*types.Struct); isS {
+							for k := 0; k < st.NumFields(); k++ {
+								if isSeqOfType(st.Field(k).Type()) {
+									ui.recvP, ui.cellField = i, st.Field(k).Name()
+								}
+							}
+						}
+					}
+				}
+			}
+			if ui.catP >= 0 && ui.offP >= 0 && (ui.seqP >= 0) != (ui.recvP >= 0) {
+				return ui
 			}
 		}
+	}
+	return nil
+}
+
+func isBasicKind(t types.Type, k types.BasicKind) bool {
+	b, ok := t.Underlying().(*types.Basic)
+	return ok && b.Kind() == k
+}
+
+func unfoldFunc(c *core.Ctx) (*ssa.Function, *ssa.Call) {
+	if ui := unfoldInfoOf(c); ui != nil {
+		return ui.fn, ui.rootCall
 	}
 	return nil, nil
 }
@@ -518,14 +569,15 @@ func isHseqType(t types.Type) bool {
 }
 
 func offsRules(c *core.Ctx) {
-	uf, rootCall := unfoldFunc(c)
-	if uf == nil {
+	ui := unfoldInfoOf(c)
+	if ui == nil {
 		c.Undecided("offs-writers", "hseq.unfold", 0, "cannot discover the unfolding function from hseq.New")
 		return
 	}
+	uf, rootCall := ui.fn, ui.rootCall
 	// root call passes constant 0
-	k, isK := rootCall.Call.Args[2].(*ssa.Const)
-	c.Check(isK && k.Value != nil && k.Value.ExactString() == "0", "offs-term", "hseq.New#root-call", rootCall.Pos(), "unfold(type, seq, 0)", "the root call passes %v as offset, expected constant 0", rootCall.Call.Args[2])
+	k, isK := rootCall.Call.Args[ui.offP].(*ssa.Const)
+	c.Check(isK && k.Value != nil && k.Value.ExactString() == "0", "offs-term", "hseq.New#root-call", rootCall.Pos(), "unfold(type, seq, 0)", "the root call passes %v as offset, expected constant 0", rootCall.Call.Args[ui.offP])
 
 	// writers census; a helper that builds entries and is used only by plain calls from the unfolding function
 	// (a newType(fv, ft, root, id) constructor) is analysed as part of it by the term rules below
@@ -595,8 +647,7 @@ func offsRules(c *core.Ctx) {
 	if problems(c, "offs-term", "hseq.unfold", an) {
 		return
 	}
-	np := len(uf.Params)
-	catP, offP := np-3, np-1
+	catP, offP := ui.catP, ui.offP
 	okLit, okRec := true, true
 	nLits, nRec := 0, 0
 	for _, p := range an.AllPaths() {
@@ -633,7 +684,7 @@ func offsRules(c *core.Ctx) {
 			}
 			nRec++
 			// unfold(ft, seq', offset + cat.Field(i).Offset)
-			off := st.A[len(st.A)-1]
+			off := st.A[offP]
 			good := off.Op == "bin" && off.Aux == "+" && len(off.Args) == 2
 			var fld *ir.Term
 			if good {
@@ -650,7 +701,7 @@ func offsRules(c *core.Ctx) {
 				continue
 			}
 			// the type descended into is that same field's (pointer-stripped) type
-			ty := st.A[len(st.A)-3]
+			ty := st.A[catP]
 			fieldT := &ir.Term{Op: "field", Aux: "Type", Args: []*ir.Term{fld.Args[0]}}
 			if !(ir.Same(ty, fieldT) || (ty.Op == "pure" && strings.HasSuffix(ty.Aux, ".Elem") && ir.Same(ty.Args[0], fieldT))) {
 				okRec = false
